@@ -298,6 +298,10 @@ func c12SpanCheck(e *c12Env, c c12Case, want map[attribute.Key]int64, doErr erro
 		return ""
 	}
 	sp := e.tp.last("Do")
+	if sp == nil && errors.Is(doErr, ch.ErrClosed) {
+		// a foreign Close that won the race to Do's entry check: the call was refused before anything was started
+		return ""
+	}
 	if sp == nil {
 		return "FAIL:no Do span with instrumentation on"
 	}
@@ -566,9 +570,13 @@ func c12Ping(c c12Case) string {
 	defer e.finish()
 	var wg sync.WaitGroup
 	c12Disturb(c, e, func() {}, &wg)
-	fails := 0
+	fails, entered := 0, 0
 	for i := 0; i < c.pings; i++ {
-		if err := e.cli.Ping(e.ctx); err != nil {
+		err := e.cli.Ping(e.ctx)
+		if !errors.Is(err, ch.ErrClosed) {
+			entered++ // not refused at the entry check (a foreign Close may win the race to it)
+		}
+		if err != nil {
 			fails++
 			if c.closers == 0 {
 				wg.Wait()
@@ -583,7 +591,7 @@ func c12Ping(c c12Case) string {
 	if c.closers > 0 && !e.cli.IsClosed() {
 		return "FAIL:client open after Close"
 	}
-	if c.otel && e.tp.last("Ping") == nil && c.pings > 0 {
+	if c.otel && e.tp.last("Ping") == nil && entered > 0 {
 		return "FAIL:no Ping span with instrumentation on"
 	}
 	return "ok"
